@@ -387,6 +387,10 @@ impl CrashSpec for DictHist {
         let d = zipora::compression::dict_zip::SuffixArrayDictionary::load_from_file(dir.join("dict.bin")).map_err(es)?;
         Ok(dict_state(&d))
     }
+    /// small file: 64-byte sectors in both tiers (a torn sector that lies inside the dictionary text is only possible with them)
+    fn sector_sizes(&self, _tier: zverif::Tier) -> Vec<usize> {
+        vec![512, 64]
+    }
 }
 
 // ---- MmapVec<u32>: longer history with pop / clear / extend -----------------------------------------
